@@ -56,7 +56,9 @@ struct IoFault : Profile {
         return {"single faults and sticky/ENOSPC continuations, attached to an event that really happened in the fault-free run",
                 "write-through stdio by default; a fraction of programs run with a buffered stdio model where the write "
                 "error surfaces at the flush/seek/close that pushes the buffer out",
-                "allocation failure is not injected (no property speaks about it)"};
+                "allocation failure is not injected (no property speaks about it)",
+                "after the first call that reports failure the program only performs its releases and closes; data torn by "
+                "a reported failure is never read back (that would be robustness against corrupt files)"};
     }
     std::vector<std::string> required_probes() const override { return {"faulty-runs", "fault-reported", "fault-harmless"}; }
 
@@ -67,6 +69,7 @@ struct IoFault : Profile {
         Rng kr              = rng.sub(1);
         p.knobs["ndds"]     = kr.chance(0.5) ? kr.range(2, 6) : 16;
         p.knobs["buffered"] = kr.chance(0.3) ? 1 : 0;
+        p.knobs["cacheoff"] = kr.chance(0.3) ? 1 : 0;
         p.knobs["bufsize"]  = kr.range(16, 600);
         Rng r               = rng.sub(2);
         // a program concentrates on one or two interfaces so that event traces stay short
@@ -128,10 +131,17 @@ struct IoFault : Profile {
         mx.ndds = (int)p.knob("ndds", 16);
         // Once a call has reported failure the file may be torn; opening such a file again is reading a corrupt
         // file, which no property covers.  The current session still runs to its closes.
+        mx.cache_off               = p.knob("cacheoff", 0) != 0;
         mx.no_reopen_after_failure = true;
         mx.skip_sd                 = p.knob("unguard_sd", 0) == 0;
         for (size_t i = 0; i < p.ops.size(); i++) {
             ctx.begin_op((int)i);
+            // after a reported failure the program only releases and closes what it holds: whatever the failed
+            // call tore (a half-written special header, ...) is not read back, in this session or a later one
+            if (mx.call_failed && p.ops[i].kind != "end") {
+                ctx.st.ops_skipped++;
+                continue;
+            }
             if (mx.run(p.ops[i]))
                 ctx.st.ops_done++;
             else
